@@ -73,7 +73,8 @@ PROPS = {
     'C07': {
         'lean_targets': ['Shisui.Props.C07', 'Shisui.Inst.C07'],
         'min_obligations': 4,
-        'runs': [{'name': 'table', 'harness': ['table'], 'driver': ['table', 'C07']}],
+        'runs': [{'name': 'table', 'harness': ['table'], 'driver': ['table', 'C07']},
+                 {'name': 'tableconc', 'harness': ['tableconc'], 'driver': ['table', 'C07']}],
         'rule': 'operation sequences (add found/inbound/forced-live, delete, revalidation timer, revalidation answers delivered in any order (dead / alive / alive with a new record), lookup feedback incl. runs of consecutive failures) against the real portalwire.Table with a fake transport and a simulated clock; node ids from pools of 34/90 keys so that buckets fill and ids repeat; addresses from three public /24s (one crowded in every fourth sequence), LAN, loopback and missing; sequence numbers 1..3; after every operation the full snapshot (entries with record/credit/verified flag/list, replacement order, per-bucket and table-wide /24 counters, fast/slow lists, active requests) must equal the model; non-trivial = the table held at least 8 entries; distinct = distinct operation lines among those',
         'trusted': ['enode.LogDist, netutil.DistinctNetSet/AddrIsLAN (re-modelled; compared on every snapshot)', 'operations are applied serially through the same handlers the table loop calls'],
         'assumptions': ['a revalidation answer carries a record of the node that was asked (the transport filters distance 0)'],
